@@ -21,4 +21,11 @@ PrintCase ==
                               outcome |-> o.k, site |-> o.op, variant |-> o.fn])>>)
 
 SoundHere == Sound(Member(pn, sn, ind))
+
+\* abstraction is free at the level of the model: naming the value with let, passing it through an
+\* identity function, or moving the let / the function to an imported module does not change the outcome
+FreeIndirections == {"direct", "let", "idfn", "implet", "impfn"}
+AbstractionFree ==
+  (ind = "direct" /\ pn \in AllPositions) =>
+    \A i2 \in FreeIndirections : Outcome(ProgOf(pn, sn, i2)).k = Outcome(ProgOf(pn, sn, "direct")).k
 =============================================================================
